@@ -37,6 +37,7 @@ macro_rules! from_json_boilerplate {
 pub struct Leaf {
     pub name: String,
     pub n: i128,
+    pub sub: Option<Box<Leaf>>, // a nested object of the same type: nesting depth is data (abstract value: `chain`)
 }
 impl New for Leaf {
     fn new() -> Self {
@@ -45,13 +46,14 @@ impl New for Leaf {
 }
 impl ToJSON for Leaf {
     fn list_properties() -> Vec<JSONProperty> {
-        vec![prop("name", JSON_TYPE.string), prop("n", JSON_TYPE.integer)]
+        vec![prop("name", JSON_TYPE.string), prop("n", JSON_TYPE.integer), prop("sub", JSON_TYPE.object)]
     }
     fn get_property(&self, property_name: String) -> JSONValue {
         let mut v = JSONValue::new();
         match property_name.as_str() {
             "name" => v.string = Some(self.name.clone()),
             "n" => v.i128 = Some(self.n),
+            "sub" => { if let Some(l) = &self.sub { v.object = Some(l.to_json_string()) } }
             _ => {}
         }
         v
@@ -67,6 +69,13 @@ impl FromJSON for Leaf {
             match p.property_name.as_str() {
                 "name" => { if let Some(s) = v.string { self.name = s } }
                 "n" => { if let Some(i) = v.i128 { self.n = i } }
+                "sub" => {
+                    if let Some(o) = v.object {
+                        let mut l = Leaf::new();
+                        l.parse(o)?;
+                        self.sub = Some(Box::new(l));
+                    }
+                }
                 _ => {}
             }
         }
@@ -207,17 +216,30 @@ fn opt<T>(p: bool, v: Value, none: Value, _t: T) -> Value {
     if p { json!({"p": true, "v": v}) } else { json!({"p": false, "v": none}) }
 }
 fn leaf_of(v: &Value) -> Leaf {
-    Leaf { name: v["name"].as_str().unwrap_or("").to_string(), n: v["n"].as_str().unwrap_or("0").parse().unwrap_or(0) }
+    // chain = the leaves nested below this one, outermost first
+    let mut sub: Option<Box<Leaf>> = None;
+    if let Some(chain) = v["chain"].as_array() {
+        for c in chain.iter().rev() {
+            sub = Some(Box::new(Leaf { name: c["name"].as_str().unwrap_or("").to_string(), n: c["n"].as_str().unwrap_or("0").parse().unwrap_or(0), sub }));
+        }
+    }
+    Leaf { name: v["name"].as_str().unwrap_or("").to_string(), n: v["n"].as_str().unwrap_or("0").parse().unwrap_or(0), sub }
 }
 fn leaf_json(l: &Leaf) -> Value {
-    json!({"name": l.name, "n": l.n.to_string()})
+    let mut chain = vec![];
+    let mut cur = &l.sub;
+    while let Some(x) = cur {
+        chain.push(json!({"name": x.name, "n": x.n.to_string()}));
+        cur = &x.sub;
+    }
+    json!({"name": l.name, "n": l.n.to_string(), "chain": chain})
 }
 fn inner_of(v: &Value) -> Inner {
     Inner { label: v["label"].as_str().unwrap_or("").to_string(), flag: v["flag"].as_str() == Some("true"),
             leaf: if present(&v["leaf"]) { Some(leaf_of(&v["leaf"]["v"])) } else { None } }
 }
 fn no_leaf() -> Value {
-    json!({"p": false, "v": {"name": "", "n": "0"}})
+    json!({"p": false, "v": {"name": "", "n": "0", "chain": []}})
 }
 fn inner_json(i: &Inner) -> Value {
     json!({"label": i.label, "flag": i.flag.to_string(),
@@ -266,7 +288,13 @@ fn ind_bool(v: &Value) -> Value {
     match v.as_bool() { Some(b) => json!(b.to_string()), None => json!("<not-a-bool>") }
 }
 fn ind_leaf(v: &Value) -> Value {
-    json!({"name": ind_str(&v["name"]), "n": ind_int(&v["n"])})
+    let mut chain = vec![];
+    let mut cur = v.get("sub");
+    while let Some(x) = cur {
+        chain.push(json!({"name": ind_str(&x["name"]), "n": ind_int(&x["n"])}));
+        cur = x.get("sub");
+    }
+    json!({"name": ind_str(&v["name"]), "n": ind_int(&v["n"]), "chain": chain})
 }
 fn ind_inner(v: &Value) -> Value {
     json!({"label": ind_str(&v["label"]), "flag": ind_bool(&v["flag"]),
